@@ -12,22 +12,22 @@ one block per `decode` call of the history (`a || b || …`).
 -/
 namespace Drv
 
-def parseRat (s : String) : Rat :=
+def dec_parseRat (s : String) : Rat :=
   match s.splitOn "/" with
   | [a] => (a.toInt?.getD 0 : Int)
   | [a, b] => mkRat (a.toInt?.getD 0) (b.toNat?.getD 1)
   | _ => 0
 
-def showRat (r : Rat) : String :=
+def dec_showRat (r : Rat) : String :=
   if r.den == 1 then toString r.num else s!"{r.num}/{r.den}"
 
 /-- comma separated, run-length items `v*k` -/
-def parseRats (s : String) : List Rat :=
+def dec_parseRats (s : String) : List Rat :=
   if s == "-" then []
   else (s.splitOn ",").flatMap fun item =>
     match item.splitOn "*" with
-    | [v, k] => List.replicate (k.toNat?.getD 1) (parseRat v)
-    | _ => [parseRat item]
+    | [v, k] => List.replicate (k.toNat?.getD 1) (dec_parseRat v)
+    | _ => [dec_parseRat item]
 
 def rle : List Rat → List (Rat × Nat)
   | [] => []
@@ -36,10 +36,10 @@ def rle : List Rat → List (Rat × Nat)
     | (b, k) :: rest => if a == b then (b, k + 1) :: rest else (a, 1) :: (b, k) :: rest
     | [] => [(a, 1)]
 
-def showRats (l : List Rat) : String :=
+def dec_showRats (l : List Rat) : String :=
   if l.isEmpty then "-"
   else ",".intercalate ((rle l).map fun (v, k) =>
-    if k == 1 then showRat v else s!"{showRat v}*{k}")
+    if k == 1 then dec_showRat v else s!"{dec_showRat v}*{k}")
 
 def parseList (sep : String) (s : String) : List String :=
   if s == "-" then [] else s.splitOn sep
@@ -53,12 +53,12 @@ def parseDict (s : String) : Dict := (parseList ";" s).map parseStack
 def parseTable (s : String) : Table :=
   (parseList ";" s).filterMap fun e =>
     match e.splitOn "~" with
-    | [k, w, sy, a] => some (k.toNat?.getD 0, parseRats w, parseVec sy, parseVec a)
+    | [k, w, sy, a] => some (k.toNat?.getD 0, dec_parseRats w, parseVec sy, parseVec a)
     | _ => none
 
 def dictKey (d : Dict) (m : Mat) : Option Nat := d.findIdx? (· == m)
 
-def showKey (d : Dict) (m : Mat) : String :=
+def dec_showKey (d : Dict) (m : Mat) : String :=
   match dictKey d m with
   | some k => toString k
   | none => "?"
@@ -90,16 +90,16 @@ def showDecErr : DecErr → String
 
 def showEvent (d : Dict) : Event Rat → String
   | .ctor m serial er mi oo bm =>
-    s!"ctor:{showKey d m}:{if serial then 1 else 0}:{showRat er}:{mi}:{oo}:{bm}"
-  | .update m p => s!"upd:{showKey d m}:{showRats p}"
-  | .decode m w s a => s!"dec:{showKey d m}:{showRats w}:{showVec s}:{showVec a}"
+    s!"ctor:{dec_showKey d m}:{if serial then 1 else 0}:{dec_showRat er}:{mi}:{oo}:{bm}"
+  | .update m p => s!"upd:{dec_showKey d m}:{dec_showRats p}"
+  | .decode m w s a => s!"dec:{dec_showKey d m}:{dec_showRats w}:{showVec s}:{showVec a}"
   | .sub s a => s!"sub:{showVec s}:{showVec a}"
 
 /-- group key of an event: the object it goes to (objects are named by their matrix) -/
 def eventKey (d : Dict) : Event Rat → String
-  | .ctor m .. => showKey d m
-  | .update m _ => showKey d m
-  | .decode m .. => showKey d m
+  | .ctor m .. => dec_showKey d m
+  | .update m _ => dec_showKey d m
+  | .decode m .. => dec_showKey d m
   | .sub .. => "s"
 
 /-- stable insertion by key: keeps the program order of the events of one object, forgets
@@ -125,7 +125,7 @@ def joinCalls (l : List String) : String := " || ".intercalate l
 def parseErrTypeTok (s : String) : Option String := if s == "none" then none else some s
 
 /-- BP-OSD history on one object -/
-def bposdHistory (S : BpSolver) (dict : Dict) (d : BpDec) : BpSt → List Vec → List String
+def bposdHistory (S : BpSolver) (dict : Dict) (d : BpDec_dec) : BpSt → List Vec → List String
   | _, [] => []
   | st, s :: rest =>
     let (st', ev, r) := d.decode S st s
@@ -148,8 +148,8 @@ def handleDecoders : List String → Option String
     let D := parseDict dict
     let T := parseTable table
     let given : Option (List Rat × List Rat) :=
-      if wmode == "given" then some (parseRats w1, parseRats w2) else none
-    let mw := getWeights (fun p => p) (parseRats px) (parseRats py) (parseRats pz)
+      if wmode == "given" then some (dec_parseRats w1, dec_parseRats w2) else none
+    let mw := getWeights (fun p => p) (dec_parseRats px) (dec_parseRats py) (dec_parseRats pz)
     some (match MatchingDec.new H n.toNat! (parseErrTypeTok et) given mw with
       | .error e => showDecErr e
       | .ok d =>
@@ -168,10 +168,10 @@ def handleDecoders : List String → Option String
   | ["dec.bposd", h, n, px, py, pz, er, mi, oo, bm, cu, dict, table, syns] =>
     let D := parseDict dict
     let T := parseTable table
-    let d : BpDec := { H := parseStack h, n := n.toNat!, px := parseRats px, py := parseRats py,
-                       pz := parseRats pz,
-                       cfg := { errorRate := parseRat er, maxIter := mi.toNat!, osdOrder := oo.toNat!,
-                                bpMethod := bm, channelUpdate := cu == "1" } }
+    let d : BpDec_dec := { H := parseStack h, n := n.toNat!, px := dec_parseRats px, py := dec_parseRats py,
+                           pz := dec_parseRats pz,
+                           cfg := { errorRate := dec_parseRat er, maxIter := mi.toNat!, osdOrder := oo.toNat!,
+                                    bpMethod := bm, channelUpdate := cu == "1" } }
     let S : BpSolver := { decode := fun m _ p s => tableSolve D T m p s,
                           converged := fun _ _ _ _ => true }
     some (joinCalls (bposdHistory S D d BpSt.init ((parseList ";" syns).map parseVec)))
@@ -179,7 +179,7 @@ def handleDecoders : List String → Option String
     let H := parseStack h
     let D := parseDict dict
     let T := parseTable table
-    let mw := getWeights (fun p => p) (parseRats px) (parseRats py) (parseRats pz)
+    let mw := getWeights (fun p => p) (dec_parseRats px) (dec_parseRats py) (dec_parseRats pz)
     some (match sweepMatchMatcher H n.toNat! mw with
       | .error e => showDecErr e
       | .ok m => joinCalls (sweepHistory D T m ((parseList ";" sweeps).map parseVec)
@@ -193,7 +193,7 @@ def handleDecoders : List String → Option String
           s!"{showVec (extractZSyndrome H (measureSyndrome H x))} {showVec (sectorSyndrome (Hz H) (xPart x))}")
   | ["dec.valid", n, c] => some (if validCorrection n.toNat! (parseVec c) then "ok" else "invalid")
   | ["dec.updprobs", c, a, y, b] =>
-    some (showRats (updProbs (parseVec c) (parseRats a) (parseRats y) (parseRats b)))
+    some (dec_showRats (updProbs (parseVec c) (dec_parseRats a) (dec_parseRats y) (dec_parseRats b)))
   | _ => none
 
 end Drv
